@@ -49,6 +49,7 @@ theorem canOp_lparen : canBeOperator (some (.ch (chr '('))) = false := by simp [
 theorem canOp_comma : canBeOperator (some (.ch (chr ','))) = false := by simp [canBeOperator, chr]
 theorem canOp_minus : canBeOperator (some (.ch (chr '-'))) = false := by simp [canBeOperator, chr]
 theorem canOp_slash : canBeOperator (some (.ch (chr '/'))) = false := by simp [canBeOperator, chr]
+theorem canOp_bar : canBeOperator (some (.ch (chr '|'))) = false := by simp [canBeOperator, chr]
 
 theorem canOp_lbracket : canBeOperator (some (.ch (chr '['))) = false := by simp [canBeOperator, chr]
 
@@ -129,6 +130,7 @@ def PE.lexable : PE → Prop
   | .paren e => e.lexable
   | .neg e => e.lexable
   | .bin _ a b => a.lexable ∧ b.lexable
+  | .union a b => a.lexable ∧ b.lexable
   | .call0 _ => True
   | .call1 _ a => a.lexable
   | .call2 _ a b => a.lexable ∧ b.lexable
@@ -187,6 +189,11 @@ theorem ctx_toks (e : PE) : e.lexable → ∀ (prev : Option Tok) (rest : List T
       ⟨fun _ => canOp_end hpe, fun fn e => absurd e (opTok_not_func op fn),
         fun p l e => (by cases op <;> cases e), fun e => (by cases op <;> cases e),
         ihb hn.2 _ rest (canOp_opTok op) hr hh⟩) (by simp [opTok_not_lparen op])
+  | union a b iha ihb =>
+    intro hn prev rest hp hr hh
+    simp only [PE.toks, List.append_assoc, List.cons_append]
+    exact iha hn.1 prev _ hp (fun p _ => ctx_ch (some p) '|' _ (by simp [chr]) (ihb hn.2 _ rest canOp_bar hr hh))
+      (by simp [chr])
   | call0 fn =>
     intro _ prev rest hp hr _
     exact ctx_func prev fn _ hp (ctx_ch _ ')' rest (by simp [chr]) (hr _ (Or.inr (Or.inr (Or.inl rfl)))))
